@@ -8,7 +8,7 @@ def plan(tier, seed):
     from vlib import build
     quick = tier == "quick"
     nrc = 8 if quick else 16
-    cases = 2500 if quick else 62500          # 2e4 / 1e6 generated probe cases in total
+    cases = 6000 if quick else 62500          # 2e4 / 1e6 generated probe cases in total
     booksrc = os.path.join(build.REPO, "lib/texellib/book/book.cpp")
     shards = []
     for i in range(nrc):
